@@ -145,6 +145,10 @@ Judge(i) ==
      \cup (IF "mints" \in DOMAIN ev.res /\ \E d \in Denoms : ev.res.mints[d] - ev.res.burns[d] # ev.post.supply[d] - Trace[i - 1].post.supply[d]
            THEN {<<i, "L1", "C02", "MintBurnEventsMatchSupplyDelta">>} ELSE {})
      \cup (IF "burns" \in DOMAIN ev.res /\ \E d \in Denoms : ev.res.burns[d] # 0 THEN {<<i, "L1", "C02", "UnexpectedBurn">>} ELSE {})
+     \cup (IF ev.a = "CheckTx" /\ ev.res.ok /\ ~AdmitIdeal(pre, ev.args)
+           THEN {<<i, "L1", "C06", AdmissionKind(pre, ev.args)>>} ELSE {})
+     \cup (IF ev.a = "CheckTx" /\ ~ev.res.ok /\ AdmitIdeal(pre, ev.args) /\ HasRegistryOps(ev.args.msgs)
+           THEN {<<i, "L2", "note", <<"checktx-refused-exact-fee", FALSE>> >>} ELSE {})
      \cup (IF HasStreamMsg(evm) /\ exp.ok /\ ~ev.res.ok THEN {<<i, "L1", "C12", "StreamOperationRefused">>} ELSE {})
      \cup (IF HasStreamMsg(evm) /\ ev.res.panic THEN {<<i, "L1", "C12", "StreamOperationPanicked">>} ELSE {})
 
